@@ -21,7 +21,13 @@
              'that the tree idr.NewXMLStreamReader built equals to_idr of the DOM xmlquery built',
              'the string API (idr.MatchAll / MatchSingle over the process-wide compiled-expression cache of '
              'go-corelib) is not modelled: it is exercised by sequences of near-identical expressions in one '
-             'process and compared with DisableXPathCache, MatchSingle and the reference on every query'],
+             'process and compared with DisableXPathCache, MatchSingle and the reference on every query',
+             'node pooling (sync.Pool behind idr.CreateNode / Release) is not modelled in C11 (C12 owns it): '
+             'it is exercised by sequences of documents in one process - an earlier document streamed with a '
+             'record-level target and released, free-standing nodes created and released - before the '
+             'document under comparison is read; the document node of every IDR tree is checked for nil '
+             'Parent/PrevSibling/NextSibling and probed through the sibling / preceding / following moves '
+             'and axes'],
  'assumptions': ['dom_wfb: only element nodes carry attributes (XML)',
                  'scope: documents without comment / processing-instruction nodes (the IDR does not '
                  'represent them)',
